@@ -565,4 +565,6 @@ PROPS['C13']['proved_part'] += '; d[o, p] / d[i] reads, __ne__, Unique.rsub agai
 PROPS['C11']['proved_part'] += '; the JSON path of tools (dump_json/load_json/_call_json/_get_fileobj: which file object, mode, encoding, closing); Pair._eq / Lattice._eq (the structural equality behind "indistinguishable")'
 PROPS['C19']['proved_part'] += '; the observables Context.objects / properties / bools (member labels of the bitset classes, rows of _intents)'
 PROPS['C20']['units'] += ['lattices._annotate', 'lattices._init', 'contexts.intension', 'contexts.extension']      # the reduced labelling the drawing shows (C10 chain)
+PROPS['C17']['units'] += [u for u in ('definitions.remove_empty_objects', 'definitions.remove_empty_properties', 'definitions.take', 'definitions.union_update',
+                                       'definitions.intersection_update', 'tools.Unique.rsub', 'tools.maximal', 'contexts.relations') if u not in PROPS['C17']['units']]
 NOT_APPLICABLE = {}
